@@ -1,5 +1,5 @@
 (* C16 -- lemmas and proofs. *)
-From Coq Require Import List NArith ZArith PeanoNat Bool Lia.
+From Coq Require Import List NArith ZArith PeanoNat Bool Lia Sorting.Sorted.
 Import ListNotations.
 Require Import Verif.Lib.Wire Verif.Lib.Text Verif.Lib.PathNorm Verif.Lib.Utf8 Verif.Lib.Percent
                Verif.Lib.C16Posix Verif.Gen.Facts_C16 Verif.Model.C16.
@@ -72,3 +72,749 @@ Proof.
       apply seg_ok_spec. unfold normal_seg. tauto. }
     rewrite E. reflexivity.
 Qed.
+
+(* ------------------------------------------------------------ paths: normpath vs lexical resolution *)
+Lemma np_step_spi init acc c :
+  (0 < init)%nat -> Forall normal_seg acc -> np_step init acc c = spi_step acc c.
+Proof.
+  intros Hi Hacc. unfold np_step, spi_step. destruct c as [|x c]; [reflexivity|].
+  destruct (is_dot (x :: c)); [reflexivity|].
+  destruct (is_dotdot (x :: c)) eqn:Hdd; [|reflexivity].
+  replace (Nat.eqb init 0) with false by (symmetry; apply Nat.eqb_neq; lia).
+  cbn [negb andb orb]. destruct acc as [|h acc']; [reflexivity|].
+  inversion Hacc as [|? ? Hh _]; subst. destruct (is_dotdot h) eqn:E; [|reflexivity].
+  apply text_eqb_eq in E. destruct Hh as (_ & _ & Hx & _). congruence.
+Qed.
+
+Lemma np_fold_spi init segs acc :
+  (0 < init)%nat -> Forall (fun s => ~ In slash s) segs -> Forall normal_seg acc ->
+  fold_left (np_step init) segs acc = resolve acc segs.
+Proof.
+  intros Hi. unfold resolve. revert acc. induction segs as [|s segs IH]; intros acc Hs Hacc; [reflexivity|].
+  inversion Hs; subst. cbn [fold_left]. rewrite np_step_spi by assumption.
+  apply IH; [assumption|]. apply spi_step_normal; assumption.
+Qed.
+
+Lemma np_comps_os_resolve r :
+  startswith [slash] r = true -> np_comps (initial_slashes r) r = os_resolve r.
+Proof.
+  intros Hr. unfold np_comps, os_resolve. f_equal. apply np_fold_spi.
+  - destruct (initial_slashes_abs r Hr) as [-> | ->]; lia.
+  - apply split_on_no_sep.
+  - constructor.
+Qed.
+
+(* normpath of an absolute path renders its lexical resolution *)
+Lemma normpath_abs_resolve r :
+  startswith [slash] r = true ->
+  exists init, (init = 1 \/ init = 2)%nat /\ Forall normal_seg (os_resolve r) /\
+               normpath r = path_of init (os_resolve r).
+Proof.
+  intros Hr. exists (initial_slashes r). split; [apply initial_slashes_abs; assumption|]. split.
+  - unfold os_resolve. apply Forall_rev. apply resolve_normal; [apply split_on_no_sep|constructor].
+  - unfold normpath. destruct r as [|x t]; [discriminate|].
+    rewrite np_comps_os_resolve by assumption. unfold path_of.
+    destruct (initial_slashes_abs (x :: t) Hr) as [E|E]; rewrite E; reflexivity.
+Qed.
+
+(* characters of the pieces come from the text *)
+Lemma split_on_chars c s : Forall (fun seg => forall x, In x seg -> In x s) (split_on c s).
+Proof.
+  induction s as [|y s IH]; simpl.
+  - constructor; [intros x []|constructor].
+  - destruct (N.eqb y c).
+    + constructor; [intros x []|]. eapply Forall_impl; [|exact IH]. intros a H x Hx. right. auto.
+    + destruct (split_on c s) as [|h t].
+      * constructor; [|constructor]. intros x [<-|[]]. left; reflexivity.
+      * inversion IH; subst. constructor.
+        -- intros x [<-|Hx]; [left; reflexivity|right; auto].
+        -- eapply Forall_impl; [|eassumption]. intros a H x Hx. right. auto.
+Qed.
+
+Lemma spi_step_Forall (P : text -> Prop) acc c : P c -> Forall P acc -> Forall P (spi_step acc c).
+Proof.
+  intros Hc Hacc. unfold spi_step. destruct c as [|x c]; [assumption|].
+  destruct (is_dot (x :: c)); [assumption|]. destruct (is_dotdot (x :: c)).
+  - destruct acc; simpl; [constructor|inversion Hacc; assumption].
+  - constructor; assumption.
+Qed.
+
+Lemma resolve_Forall (P : text -> Prop) segs acc : Forall P segs -> Forall P acc -> Forall P (resolve acc segs).
+Proof.
+  unfold resolve. revert acc. induction segs as [|s segs IH]; intros acc Hs Hacc; simpl; [assumption|].
+  inversion Hs; subst. apply IH; [assumption|apply spi_step_Forall; assumption].
+Qed.
+
+Lemma os_resolve_nonul r : ~ In 0 r -> Forall (fun s => ~ In 0 s) (os_resolve r).
+Proof.
+  intros H. unfold os_resolve. apply Forall_rev. apply resolve_Forall; [|constructor].
+  eapply Forall_impl; [|apply (split_on_chars slash r)]. intros a Ha Hin. apply H. apply Ha. exact Hin.
+Qed.
+
+(* ------------------------------------------------------------ the abstract file system *)
+Lemma walk_empties fs n L : walk fs [] (repeat [] n ++ L) = walk fs [] L.
+Proof. induction n as [|n IH]; [reflexivity|]. cbn [repeat app walk fs_at spi_step]. exact IH. Qed.
+
+Lemma in_join x sep L : In x (join sep L) -> In x sep \/ exists s, In s L /\ In x s.
+Proof.
+  induction L as [|a L IH]; [intros []|].
+  destruct L as [|b L].
+  - simpl. intros H. right. exists a. split; [left; reflexivity|assumption].
+  - change (join sep (a :: b :: L)) with (a ++ sep ++ join sep (b :: L)).
+    rewrite !in_app_iff. intros [H|[H|H]].
+    + right. exists a. split; [left; reflexivity|assumption].
+    + left. assumption.
+    + destruct (IH H) as [H1|(s & Hs & Hx)]; [left; assumption|].
+      right. exists s. split; [right; assumption|assumption].
+Qed.
+
+Definition nonul (s : text) : Prop := ~ In 0 s.
+
+Lemma path_of_nonul init L : Forall nonul L -> ~ In 0 (path_of init L).
+Proof.
+  intros Hf. unfold path_of. rewrite in_app_iff. intros [H|H].
+  - apply repeat_spec in H. discriminate.
+  - apply in_join in H. destruct H as [[H|[]]|(s & Hs & Hx)]; [discriminate|].
+    rewrite Forall_forall in Hf. exact (Hf s Hs Hx).
+Qed.
+
+Lemma memN_false x l : ~ In x l -> memN x l = false.
+Proof. intros H. destruct (memN x l) eqn:E; [apply memN_In in E; contradiction|reflexivity]. Qed.
+
+Lemma startswith_path_of init L : (init = 1 \/ init = 2)%nat -> startswith [slash] (path_of init L) = true.
+Proof. intros [-> | ->]; reflexivity. Qed.
+
+Lemma split_path_of init L :
+  Forall normal_seg L ->
+  split_on slash (path_of init L) = repeat [] init ++ match L with [] => [[]] | _ => L end.
+Proof.
+  intros Hf. unfold path_of. rewrite split_repeat_slash. f_equal.
+  destruct L as [|a L]; [reflexivity|]. apply split_join_normal; [discriminate|assumption].
+Qed.
+
+Lemma fs_stat_path_of fs init L :
+  (init = 1 \/ init = 2)%nat -> Forall normal_seg L -> Forall nonul L ->
+  fs_stat fs (path_of init L) = walk fs [] L.
+Proof.
+  intros Hi Hn Hz. unfold fs_stat. rewrite memN_false by (apply path_of_nonul; assumption).
+  rewrite startswith_path_of by assumption. rewrite split_path_of by assumption.
+  rewrite walk_empties. destruct L; reflexivity.
+Qed.
+
+(* ------------------------------------------------------------ beneath *)
+Lemma strip_prefix_comps_app a b : strip_prefix_comps a (a ++ b) = Some b.
+Proof. induction a as [|x a IH]; [reflexivity|]. simpl. rewrite text_eqb_refl. exact IH. Qed.
+
+Lemma plain_of_normal L : Forall normal_seg L -> forallb plain_comp L = true.
+Proof.
+  intros Hf. apply forallb_forall. intros s Hs. rewrite Forall_forall in Hf. specialize (Hf s Hs).
+  unfold plain_comp. destruct s; [reflexivity|]. apply normal_segb_spec. assumption.
+Qed.
+
+Lemma forallb_repeat_nil n : forallb plain_comp (repeat [] n) = true.
+Proof. induction n; [reflexivity|exact IHn]. Qed.
+
+Lemma beneath_path_of init R t :
+  (init = 1 \/ init = 2)%nat -> Forall normal_seg (R ++ t) -> Forall nonul (R ++ t) ->
+  beneath R (path_of init (R ++ t)) = true.
+Proof.
+  intros Hi Hn Hz. unfold beneath.
+  rewrite startswith_path_of by assumption.
+  rewrite memN_false by (apply path_of_nonul; assumption).
+  rewrite split_path_of by assumption. rewrite forallb_app, forallb_repeat_nil.
+  rewrite os_resolve_path_of by assumption. rewrite strip_prefix_comps_app.
+  pose proof (plain_of_normal _ Hn) as Hp. revert Hp.
+  destruct (R ++ t); [reflexivity|]. intros Hp. cbv iota. cbn [andb negb]. rewrite andb_true_r. exact Hp.
+Qed.
+
+(* appending an extension to a rendered path changes its last component only *)
+Lemma join_snoc_app sep X y e : join sep (X ++ [y]) ++ e = join sep (X ++ [y ++ e]).
+Proof.
+  induction X as [|a X IH]; [reflexivity|].
+  destruct X as [|b X].
+  - simpl. rewrite <- !app_assoc. reflexivity.
+  - change (join sep ((a :: b :: X) ++ [y])) with (a ++ sep ++ join sep ((b :: X) ++ [y])).
+    change (join sep ((a :: b :: X) ++ [y ++ e])) with (a ++ sep ++ join sep ((b :: X) ++ [y ++ e])).
+    rewrite <- IH. rewrite <- !app_assoc. reflexivity.
+Qed.
+
+Lemma path_of_snoc_ext init X y e : path_of init (X ++ [y]) ++ e = path_of init (X ++ [y ++ e]).
+Proof. unfold path_of. rewrite <- app_assoc. rewrite join_snoc_app. reflexivity. Qed.
+
+Lemma normal_app_ext s e : normal_seg s -> ~ In slash e -> normal_seg (s ++ e).
+Proof.
+  intros (H1 & H2 & H3 & H4) He. repeat split.
+  - destruct s; [congruence|discriminate].
+  - destruct s as [|a [|b s]]; [congruence| |discriminate].
+    destruct e; [rewrite app_nil_r; assumption|discriminate].
+  - destruct s as [|a [|b [|c0 s]]]; [congruence| | |discriminate].
+    + destruct e as [|e0 [|e1 e]]; [discriminate| |discriminate].
+      simpl. intros E. injection E as -> ->. apply H2. reflexivity.
+    + destruct e; [rewrite app_nil_r; assumption|discriminate].
+  - rewrite in_app_iff. tauto.
+Qed.
+
+Lemma nonul_app s e : nonul s -> nonul e -> nonul (s ++ e).
+Proof. unfold nonul. rewrite in_app_iff. tauto. Qed.
+
+Lemma exists_last_ne {A} (l : list A) : l <> [] -> exists X y, l = X ++ [y].
+Proof. intros H. destruct (exists_last H) as (X & y & E). eauto. Qed.
+
+(* ------------------------------------------------------------ get_resource_name, file-system root *)
+Definition wf_fs (c : config) : Prop :=
+  c_pkg c = false /\ startswith [slash] (c_docroot c) = true /\ nonul (c_docroot c) /\
+  normal_seg (eff_index c) /\ nonul (eff_index c) /\
+  Forall (fun p => ~ In slash (fst p) /\ nonul (fst p)) (c_encmap c).
+
+Definition root_is_dir (c : config) (fs : fsys) : Prop := is_dir (walk fs [] (spec_root c)) = true.
+
+Lemma secure_some t path :
+  secure_path t = Some path -> Forall normal_seg t /\ Forall nonul t /\ path = join [slash] t.
+Proof.
+  intros H. apply secure_path_spec in H. destruct H as [Hf ->]. repeat split.
+  - eapply Forall_impl; [|exact Hf]. intros s (H1 & H2 & H3 & H4 & H5). repeat split; assumption.
+  - eapply Forall_impl; [|exact Hf]. intros s (H1 & H2 & H3 & H4 & H5). exact H5.
+Qed.
+
+Lemma spec_root_fs c : c_pkg c = false -> spec_root c = os_resolve (c_docroot c).
+Proof. intros H. unfold spec_root. rewrite H. reflexivity. Qed.
+
+Lemma grn_fs c rq pi fs t path :
+  wf_fs c -> secure_path t = Some path ->
+  exists init, (init = 1 \/ init = 2)%nat /\
+    get_resource_name c rq pi fs t =
+      (if is_dir (walk fs [] (spec_root c ++ t))
+       then dir_or_redirect c rq pi (path_of init (spec_root c ++ t ++ [eff_index c]))
+       else RNName (path_of init (spec_root c ++ t)),
+       [(0, path_of init (spec_root c ++ t))]).
+Proof.
+  intros (Hpkg & Habs & Hz & Hin & Hiz & _) Hsec.
+  destruct (secure_some t path Hsec) as (Htn & Htz & ->).
+  destruct (normpath_abs_resolve (c_docroot c) Habs) as (init & Hi & HRn & Enp).
+  exists init. split; [assumption|].
+  unfold get_resource_name. rewrite Hsec, Hpkg, Enp.
+  rewrite normpath_join_path_of by assumption.
+  rewrite spec_root_fs by assumption.
+  assert (HLn : Forall normal_seg (os_resolve (c_docroot c) ++ t)) by (apply Forall_app; split; assumption).
+  assert (HLz : Forall nonul (os_resolve (c_docroot c) ++ t)).
+  { apply Forall_app; split; [apply os_resolve_nonul; assumption|assumption]. }
+  unfold bind, stat. rewrite fs_stat_path_of by assumption.
+  destruct (is_dir (walk fs [] (os_resolve (c_docroot c) ++ t))).
+  - unfold ret. cbn [app]. f_equal. f_equal.
+    replace (eff_index c) with (join [slash] [eff_index c]) at 1 by reflexivity.
+    rewrite pjoin_path_of; try assumption.
+    + rewrite <- app_assoc. reflexivity.
+    + constructor; [assumption|constructor].
+    + discriminate.
+  - reflexivity.
+Qed.
+
+(* names the view may look for: a rendered path strictly below the root *)
+Definition good_name (c : config) (init : nat) (name : text) : Prop :=
+  exists X y, Forall normal_seg (spec_root c ++ X ++ [y]) /\ Forall nonul (spec_root c ++ X ++ [y]) /\
+              name = path_of init (spec_root c ++ X ++ [y]).
+
+Lemma good_name_beneath c init name :
+  (init = 1 \/ init = 2)%nat -> good_name c init name -> beneath (spec_root c) name = true.
+Proof. intros Hi (X & y & Hn & Hz & ->). apply beneath_path_of; assumption. Qed.
+
+Lemma Forall_snoc_inv {A} (P : A -> Prop) l x : Forall P (l ++ [x]) -> Forall P l /\ P x.
+Proof. intros H. apply Forall_app in H. destruct H as [H1 H2]. inversion H2; subst. auto. Qed.
+
+Lemma good_name_ext c init name ext :
+  (init = 1 \/ init = 2)%nat -> good_name c init name -> ~ In slash ext -> nonul ext ->
+  good_name c init (name ++ ext).
+Proof.
+  intros Hi (X & y & Hn & Hz & ->) He Hez. exists X, (y ++ ext).
+  rewrite !app_assoc in *. apply Forall_snoc_inv in Hn. apply Forall_snoc_inv in Hz.
+  destruct Hn as [Hn1 Hn2]. destruct Hz as [Hz1 Hz2]. repeat split.
+  - apply Forall_app. split; [assumption|]. constructor; [apply normal_app_ext; assumption|constructor].
+  - apply Forall_app. split; [assumption|]. constructor; [apply nonul_app; assumption|constructor].
+  - apply path_of_snoc_ext.
+Qed.
+
+Lemma grn_fs_name c rq pi fs t name log :
+  wf_fs c -> root_is_dir c fs ->
+  get_resource_name c rq pi fs t = (RNName name, log) ->
+  exists init, (init = 1 \/ init = 2)%nat /\ good_name c init name /\ contained c log = true.
+Proof.
+  intros Hwf Hroot H. destruct (secure_path t) as [path|] eqn:Hsec.
+  2:{ unfold get_resource_name in H. rewrite Hsec in H. unfold ret in H. injection H as H _. discriminate. }
+  destruct (grn_fs c rq pi fs t path Hwf Hsec) as (init & Hi & E). rewrite E in H. clear E.
+  destruct (secure_some t path Hsec) as (Htn & Htz & ->).
+  destruct Hwf as (Hpkg & Habs & Hz & Hin & Hiz & _).
+  assert (HRn : Forall normal_seg (spec_root c)).
+  { rewrite spec_root_fs by assumption. unfold os_resolve. apply Forall_rev.
+    apply resolve_normal; [apply split_on_no_sep|constructor]. }
+  assert (HRz : Forall nonul (spec_root c)).
+  { rewrite spec_root_fs by assumption. apply os_resolve_nonul. assumption. }
+  exists init. split; [assumption|].
+  injection H as Hname <-.
+  assert (Hlog : contained c [(0, path_of init (spec_root c ++ t))] = true).
+  { unfold contained. cbn [forallb snd]. rewrite andb_true_r.
+    apply beneath_path_of; [assumption| |]; apply Forall_app; split; assumption. }
+  split; [|exact Hlog].
+  destruct (is_dir (walk fs [] (spec_root c ++ t))) eqn:Hd.
+  - unfold dir_or_redirect in Hname. destruct (path_url c pi); [|discriminate].
+    destruct (endswith url_dir_suffix t0); [|discriminate]. injection Hname as <-.
+    exists t, (eff_index c). repeat split.
+    + apply Forall_app; split; [assumption|]. apply Forall_app; split; [assumption|]. constructor; [assumption|constructor].
+    + apply Forall_app; split; [assumption|]. apply Forall_app; split; [assumption|]. constructor; [assumption|constructor].
+  - injection Hname as <-.
+    destruct t as [|s t'].
+    { rewrite app_nil_r in Hd. unfold root_is_dir in Hroot. congruence. }
+    destruct (exists_last_ne (s :: t') ltac:(discriminate)) as (X & y & EX). rewrite EX in *.
+    exists X, y. repeat split; try reflexivity; apply Forall_app; split; assumption.
+Qed.
+
+Lemma grn_fs_log c rq pi fs t rn log :
+  wf_fs c -> get_resource_name c rq pi fs t = (rn, log) -> contained c log = true.
+Proof.
+  intros Hwf H. destruct (secure_path t) as [path|] eqn:Hsec.
+  2:{ unfold get_resource_name in H. rewrite Hsec in H. unfold ret in H. injection H as _ <-. reflexivity. }
+  destruct (grn_fs c rq pi fs t path Hwf Hsec) as (init & Hi & E). rewrite E in H. clear E.
+  destruct (secure_some t path Hsec) as (Htn & Htz & ->).
+  destruct Hwf as (Hpkg & Habs & Hz & Hin & Hiz & _).
+  injection H as _ <-. unfold contained. cbn [forallb snd]. rewrite andb_true_r.
+  apply beneath_path_of; [assumption| |]; apply Forall_app; split; try assumption.
+  - rewrite spec_root_fs by assumption. unfold os_resolve. apply Forall_rev.
+    apply resolve_normal; [apply split_on_no_sep|constructor].
+  - rewrite spec_root_fs by assumption. apply os_resolve_nonul. assumption.
+Qed.
+
+(* ------------------------------------------------------------ get_possible_files *)
+Lemma compile_add_exts res e ext e' exts' x :
+  In (e', exts') (compile_add res e ext) -> In x exts' ->
+  x = ext \/ exists exts0, In (e', exts0) res /\ In x exts0.
+Proof.
+  revert e' exts'. induction res as [|[e0 xs] r IH]; intros e' exts' Hin Hx.
+  - simpl in Hin. destruct Hin as [E|[]]. injection E as <- <-. destruct Hx as [<-|[]]. left; reflexivity.
+  - simpl in Hin. destruct (text_eqb e e0).
+    + destruct Hin as [E|Hin].
+      * injection E as <- <-. apply in_app_iff in Hx. destruct Hx as [Hx|[<-|[]]].
+        -- right. exists xs. split; [left; reflexivity|assumption].
+        -- left; reflexivity.
+      * right. exists exts'. split; [right; assumption|assumption].
+    + destruct Hin as [E|Hin].
+      * injection E as <- <-. right. exists xs. split; [left; reflexivity|assumption].
+      * destruct (IH _ _ Hin Hx) as [->|(exts0 & H1 & H2)]; [left; reflexivity|].
+        right. exists exts0. split; [right; assumption|assumption].
+Qed.
+
+Lemma compile_fold_exts encs encmap res e' exts' x :
+  In (e', exts') (fold_left (fun res p => if mem_text (snd p) encs then compile_add res (snd p) (fst p) else res) encmap res) ->
+  In x exts' ->
+  In x (map fst encmap) \/ exists exts0, In (e', exts0) res /\ In x exts0.
+Proof.
+  revert res. induction encmap as [|[ext e] r IH]; intros res Hin Hx.
+  - simpl in Hin. right. exists exts'. split; assumption.
+  - cbn [fold_left fst snd] in Hin. destruct (mem_text e encs).
+    + destruct (IH _ Hin Hx) as [H|(exts0 & H1 & H2)].
+      * left. right. assumption.
+      * destruct (compile_add_exts _ _ _ _ _ _ H1 H2) as [->|H3].
+        -- left. left. reflexivity.
+        -- right. assumption.
+    + destruct (IH _ Hin Hx) as [H|H]; [left; right; assumption|right; assumption].
+Qed.
+
+Lemma compile_exts c e exts x :
+  In (e, exts) (compile_encodings (c_encs c) (c_encmap c)) -> In x exts -> In x (map fst (c_encmap c)).
+Proof.
+  intros Hin Hx. unfold compile_encodings in Hin.
+  destruct (compile_fold_exts _ _ _ _ _ _ Hin Hx) as [H|(exts0 & [] & _)]. assumption.
+Qed.
+
+(* every candidate is the resource name, or the name followed by a configured extension *)
+Lemma candidates_shape c name n e :
+  In (n, e) (candidates c name) -> n = name \/ exists ext, In ext (map fst (c_encmap c)) /\ n = name ++ ext.
+Proof.
+  unfold candidates. intros [E|Hin].
+  - injection E as <- <-. left; reflexivity.
+  - apply in_flat_map in Hin. destruct Hin as ([e0 exts] & H1 & H2). cbn [fst snd] in H2.
+    apply in_map_iff in H2. destruct H2 as (ext & E & Hext). injection E as <- <-.
+    right. exists ext. split; [eapply compile_exts; eassumption|reflexivity].
+Qed.
+
+Definition paths_ok (c : config) (l : list cand) : Prop :=
+  Forall (fun f => beneath (spec_root c) (fst f) = true) l.
+
+Lemma contained_app c l1 l2 : contained c (l1 ++ l2) = contained c l1 && contained c l2.
+Proof. unfold contained. apply forallb_app. Qed.
+
+Lemma probe_ok c fs cands found log :
+  c_pkg c = false ->
+  Forall (fun ne => beneath (spec_root c) (fst ne) = true) cands ->
+  probe c fs cands = (found, log) -> paths_ok c found /\ contained c log = true.
+Proof.
+  intros Hpkg. revert found log. induction cands as [|[n e] r IH]; intros found log Hc H.
+  - simpl in H. injection H as <- <-. split; [constructor|reflexivity].
+  - inversion Hc as [|? ? Hn Hr]; subst. cbn [fst] in Hn.
+    cbn [probe] in H. unfold bind, stat, ret in H.
+    destruct (probe c fs r) as [found' log'] eqn:E. specialize (IH _ _ Hr eq_refl). destruct IH as [IH1 IH2].
+    assert (Hos : os_path c n = n) by (unfold os_path; rewrite Hpkg; reflexivity).
+    rewrite Hos in H. injection H as <- <-. split.
+    + destruct (exists_ (fs_stat fs n)); [constructor; assumption|assumption].
+    + rewrite app_nil_r. cbn [app]. unfold contained in *. cbn [forallb snd]. rewrite Hn, IH2. reflexivity.
+Qed.
+
+Lemma sizes_ok c fs l keyed log :
+  paths_ok c l -> sizes fs l = (keyed, log) -> paths_ok c (map snd keyed) /\ contained c log = true.
+Proof.
+  revert keyed log. induction l as [|f r IH]; intros keyed log Hl H.
+  - simpl in H. injection H as <- <-. split; [constructor|reflexivity].
+  - inversion Hl as [|? ? Hf Hr]; subst. cbn [sizes] in H. unfold bind, stat, ret in H.
+    destruct (sizes fs r) as [ks log'] eqn:E. specialize (IH _ _ Hr eq_refl). destruct IH as [IH1 IH2].
+    injection H as <- <-. split.
+    + constructor; assumption.
+    + rewrite app_nil_r. cbn [app]. unfold contained in *. cbn [forallb snd]. rewrite Hf, IH2. reflexivity.
+Qed.
+
+Lemma insert_by_In x l y : In y (insert_by x l) <-> y = x \/ In y l.
+Proof.
+  induction l as [|z r IH]; simpl.
+  - split; [intros [<-|[]]; auto|intros [->|[]]; auto].
+  - destruct (fst x <=? fst z); simpl.
+    + split; [intros [<-|H]; auto|intros [->|H]; auto].
+    + rewrite IH. split; [intros [<-|[->|H]]; auto|intros [->|[<-|H]]; auto].
+Qed.
+
+Lemma sort_by_In l y : In y (sort_by l) <-> In y l.
+Proof.
+  induction l as [|x r IH]; simpl; [tauto|]. rewrite insert_by_In, IH. split; intros [H|H]; auto.
+Qed.
+
+Lemma paths_ok_sort c keyed : paths_ok c (map snd keyed) -> paths_ok c (map snd (sort_by keyed)).
+Proof.
+  unfold paths_ok. rewrite !Forall_forall. intros H f Hf. apply in_map_iff in Hf.
+  destruct Hf as (k & <- & Hk). apply (proj1 (sort_by_In _ _)) in Hk. apply H. apply (in_map snd). exact Hk.
+Qed.
+
+Lemma compute_files_ok c fs init name files log :
+  wf_fs c -> (init = 1 \/ init = 2)%nat -> good_name c init name ->
+  compute_files c fs name = (files, log) -> paths_ok c files /\ contained c log = true.
+Proof.
+  intros Hwf Hi Hg H. unfold compute_files, bind, ret in H.
+  destruct (probe c fs (candidates c name)) as [found l1] eqn:E1.
+  destruct (sizes fs found) as [keyed l2] eqn:E2. injection H as <- <-.
+  destruct Hwf as (Hpkg & _ & _ & _ & _ & Hext).
+  assert (Hc : Forall (fun ne => beneath (spec_root c) (fst ne) = true) (candidates c name)).
+  { apply Forall_forall. intros [n e] Hin. cbn [fst]. apply candidates_shape in Hin.
+    destruct Hin as [->|(ext & Hx & ->)].
+    - eapply good_name_beneath; eassumption.
+    - apply in_map_iff in Hx. destruct Hx as (p & <- & Hp). rewrite Forall_forall in Hext.
+      destruct (Hext p Hp) as [H1 H2]. eapply good_name_beneath; [eassumption|].
+      apply good_name_ext; assumption. }
+  destruct (probe_ok c fs _ _ _ Hpkg Hc E1) as [Hf Hl1].
+  destruct (sizes_ok c fs _ _ _ Hf E2) as [Hk Hl2]. split.
+  - apply paths_ok_sort. assumption.
+  - rewrite app_nil_r, contained_app, Hl1, Hl2. reflexivity.
+Qed.
+
+(* ------------------------------------------------------------ the filemap keeps paths below the root *)
+Definition fm_ok (c : config) (fm : filemap) : Prop :=
+  forall name files, fm_get fm name = Some files -> paths_ok c files.
+
+Lemma fm_ok_nil c : fm_ok c [].
+Proof. intros name files H. discriminate. Qed.
+
+Lemma possible_files_ok c fs fm init name files fm' log :
+  wf_fs c -> (init = 1 \/ init = 2)%nat -> good_name c init name -> fm_ok c fm ->
+  possible_files c fs fm name = ((files, fm'), log) ->
+  paths_ok c files /\ fm_ok c fm' /\ contained c log = true.
+Proof.
+  intros Hwf Hi Hg Hfm H. unfold possible_files in H. destruct (fm_get fm name) as [cached|] eqn:E.
+  - unfold ret in H. injection H as <- <- <-. repeat split; [eapply Hfm; eassumption|assumption].
+  - unfold bind, ret in H. destruct (compute_files c fs name) as [fl l1] eqn:E1.
+    injection H as <- <- <-. destruct (compute_files_ok c fs init name _ _ Hwf Hi Hg E1) as [Hp Hl].
+    repeat split; [assumption| |rewrite app_nil_r; assumption].
+    destruct (c_reload c); [assumption|].
+    intros n fl' Hget. cbn [fm_get] in Hget. destruct (text_eqb n name).
+    + injection Hget as <-. assumption.
+    + eapply Hfm; eassumption.
+Qed.
+
+Lemma best_match_in rq files p enc :
+  best_match rq files = Some (p, enc) -> exists f, In f files /\ fst f = p.
+Proof.
+  unfold best_match. destruct (r_ae rq).
+  - intros H. apply find_some in H. destruct H as [H _]. exists (p, enc). split; [assumption|reflexivity].
+  - destruct (find is_identity files) as [f|] eqn:E; [|discriminate]. intros H. injection H as <- <-.
+    apply find_some in E. destruct E as [E _]. exists f. split; [assumption|reflexivity].
+Qed.
+
+Lemma file_response_ok c fs p enc vary r log :
+  beneath (spec_root c) p = true -> file_response fs p enc vary = (r, log) -> contained c log = true.
+Proof.
+  intros Hp H. unfold file_response, bind, stat, ret in H. destruct (fs_stat fs p).
+  - injection H as _ <-. unfold contained. cbn [forallb app snd]. rewrite Hp. reflexivity.
+  - injection H as _ <-. unfold contained. cbn [forallb app snd]. rewrite Hp. reflexivity.
+Qed.
+
+Lemma serve_contained_fs c rq pi fs fm t r fm' log :
+  wf_fs c -> root_is_dir c fs -> fm_ok c fm ->
+  serve c rq pi fs fm t = ((r, fm'), log) -> contained c log = true /\ fm_ok c fm'.
+Proof.
+  intros Hwf Hroot Hfm H. unfold serve, bind in H.
+  destruct (get_resource_name c rq pi fs t) as [rn l1] eqn:E1.
+  destruct rn as [r0|name].
+  - unfold ret in H. injection H as <- <- <-. rewrite app_nil_r. split; [|assumption].
+    eapply grn_fs_log; eassumption.
+  - destruct (grn_fs_name c rq pi fs t name l1 Hwf Hroot E1) as (init & Hi & Hg & Hl1).
+    destruct (possible_files c fs fm name) as [[files fm1] l2] eqn:E2.
+    destruct (possible_files_ok c fs fm init name files fm1 l2 Hwf Hi Hg Hfm E2) as (Hp & Hfm1 & Hl2).
+    cbn [fst snd] in H. destruct (best_match rq files) as [[p enc]|] eqn:E3.
+    + destruct (file_response fs p enc (Nat.ltb 1 (length files))) as [r1 l3] eqn:E4.
+      unfold ret in H. injection H as <- <- <-. split; [|assumption].
+      destruct (best_match_in _ _ _ _ E3) as (f & Hf & <-).
+      unfold paths_ok in Hp. rewrite Forall_forall in Hp.
+      rewrite !contained_app, Hl1, Hl2. cbn [andb contained forallb].
+      rewrite andb_true_r. eapply file_response_ok; [apply Hp; eassumption|eassumption].
+    + unfold ret in H. injection H as <- <- <-. split; [|assumption].
+      rewrite !contained_app, Hl1, Hl2. reflexivity.
+Qed.
+
+(* ------------------------------------------------------------ containment, file-system roots *)
+Lemma serve_path_info_contained_fs c rq pi fs fm r fm' log :
+  wf_fs c -> root_is_dir c fs -> fm_ok c fm ->
+  serve_path_info c rq pi fs fm = ((r, fm'), log) -> contained c log = true /\ fm_ok c fm'.
+Proof.
+  intros Hwf Hroot Hfm H. unfold serve_path_info in H. destruct (view_tuple pi) as [r0|t].
+  - unfold ret in H. injection H as <- <- <-. split; [reflexivity|assumption].
+  - eapply serve_contained_fs; eassumption.
+Qed.
+
+Lemma run_request_contained_fs c fs fm rq r fm' log :
+  wf_fs c -> root_is_dir c fs -> fm_ok c fm ->
+  run_request c fs fm rq = ((r, fm'), log) -> contained c log = true /\ fm_ok c fm'.
+Proof.
+  intros Hwf Hroot Hfm H. unfold run_request in H.
+  assert (Hret : forall r0, ret (r0, fm) = ((r, fm'), log) -> contained c log = true /\ fm_ok c fm').
+  { intros r0 E. unfold ret in E. injection E as <- <- <-. split; [reflexivity|assumption]. }
+  destruct (c_mount c) as [|[m|m|]].
+  - destruct (decode (unquote (r_raw rq))) as [p0|]; [|eapply Hret; eassumption].
+    destruct (route_match _ _) as [rest|]; [|eapply Hret; eassumption].
+    destruct static_use_subpath; [eapply serve_contained_fs|eapply serve_path_info_contained_fs]; eassumption.
+  - destruct m; try (eapply serve_contained_fs; eassumption).
+  - destruct m; try (eapply serve_contained_fs; eassumption).
+    eapply serve_path_info_contained_fs; eassumption.
+  - destruct (decode (unquote (r_raw rq))) as [p0|]; [|eapply Hret; eassumption].
+    destruct (route_match _ _) as [rest|]; [|eapply Hret; eassumption].
+    eapply serve_contained_fs; eassumption.
+Qed.
+
+Lemma run_requests_contained_fs c fs rqs fm :
+  wf_fs c -> root_is_dir c fs -> fm_ok c fm ->
+  Forall (fun rl => contained c (snd rl) = true) (run_requests c fs fm rqs).
+Proof.
+  intros Hwf Hroot. revert fm. induction rqs as [|rq rqs IH]; intros fm Hfm; [constructor|].
+  cbn [run_requests]. destruct (run_request c fs fm rq) as [[r fm'] log] eqn:E.
+  destruct (run_request_contained_fs c fs fm rq r fm' log Hwf Hroot Hfm E) as [Hl Hfm'].
+  constructor; [exact Hl|apply IH; assumption].
+Qed.
+
+(* for every sequence of requests handled by one view instance, whatever the
+   request strings, the mounting, the file system and the Accept-Encoding
+   answers: every path handed to os.stat/open is absolute, NUL-free, made of
+   plain names only, and lexically the root or a path below it *)
+Theorem containment_fs c fs rqs :
+  wf_fs c -> root_is_dir c fs ->
+  Forall (fun rl => contained c (snd rl) = true) (run_model c fs rqs).
+Proof. intros Hwf Hroot. apply run_requests_contained_fs; [assumption|assumption|apply fm_ok_nil]. Qed.
+
+(* ------------------------------------------------------------ find_best_match *)
+Lemma find_ext {A} (f g : A -> bool) l : (forall x, f x = g x) -> find f l = find g l.
+Proof. intros H. induction l as [|x l IH]; simpl; [reflexivity|]. rewrite H, IH. reflexivity. Qed.
+
+Definition sel (rq : request) (f : cand) : bool := spec_acceptable rq (snd f).
+
+Lemma best_match_find rq files : best_match rq files = find (sel rq) files.
+Proof.
+  unfold best_match, sel, spec_acceptable. destruct (r_ae rq) eqn:E.
+  - apply find_ext. intros [p [e|]]; reflexivity.
+  - induction files as [|[p [e|]] r IH]; cbn [find is_identity fst snd andb]; [reflexivity|exact IH|reflexivity].
+Qed.
+
+Definition key_le (x y : N * cand) : Prop := fst x <= fst y.
+
+Lemma insert_by_sorted x l :
+  Sorted.StronglySorted key_le l -> Sorted.StronglySorted key_le (insert_by x l).
+Proof.
+  intros H. induction H as [|y r Hr IH Hy]; simpl.
+  - constructor; [constructor|constructor].
+  - destruct (fst x <=? fst y) eqn:E.
+    + apply N.leb_le in E. constructor; [constructor; assumption|].
+      constructor; [exact E|]. eapply Forall_impl; [|exact Hy]. intros a Ha. unfold key_le in *. lia.
+    + apply N.leb_gt in E. constructor; [assumption|].
+      apply Forall_forall. intros z Hz. apply insert_by_In in Hz. destruct Hz as [->|Hz].
+      * unfold key_le. lia.
+      * rewrite Forall_forall in Hy. apply Hy. assumption.
+Qed.
+
+Lemma sort_by_sorted l : Sorted.StronglySorted key_le (sort_by l).
+Proof. induction l as [|x r IH]; simpl; [constructor|apply insert_by_sorted; assumption]. Qed.
+
+Lemma find_sorted_min (P : N * cand -> bool) l x :
+  Sorted.StronglySorted key_le l -> find P l = Some x ->
+  forall y, In y l -> P y = true -> fst x <= fst y.
+Proof.
+  intros H. induction H as [|z r Hr IH Hz]; simpl; [discriminate|].
+  destruct (P z) eqn:E.
+  - intros F y Hy Py. injection F as <-. destruct Hy as [<-|Hy]; [lia|].
+    rewrite Forall_forall in Hz. apply Hz. assumption.
+  - intros F y Hy Py. destruct Hy as [<-|Hy]; [congruence|]. apply IH; assumption.
+Qed.
+
+Lemma find_map_snd (P : cand -> bool) (l : list (N * cand)) :
+  find P (map snd l) = option_map snd (find (fun kf => P (snd kf)) l).
+Proof. induction l as [|x l IH]; simpl; [reflexivity|]. destruct (P (snd x)); [reflexivity|exact IH]. Qed.
+
+(* the file chosen among the size-sorted candidates is acceptable to the client
+   (identity always is; an encoded variant only if an Accept-Encoding header is
+   present and lists it), carries its own encoding label, and no acceptable
+   candidate is strictly smaller *)
+Theorem variant_choice rq keyed p enc :
+  best_match rq (map snd (sort_by keyed)) = Some (p, enc) ->
+  spec_acceptable rq enc = true /\
+  exists k, In (k, (p, enc)) keyed /\
+            forall k' f', In (k', f') keyed -> spec_acceptable rq (snd f') = true -> k <= k'.
+Proof.
+  rewrite best_match_find, find_map_snd. intros H.
+  destruct (find (fun kf => sel rq (snd kf)) (sort_by keyed)) as [[k f]|] eqn:F; [|discriminate].
+  cbn [option_map snd] in H. injection H as ->.
+  pose proof (find_some _ _ F) as [Hin Hsel]. cbn [snd] in Hsel. split; [exact Hsel|].
+  exists k. split; [apply sort_by_In; assumption|].
+  intros k' f' Hin' Hacc.
+  apply (find_sorted_min _ _ _ (sort_by_sorted keyed) F (k', f')); [apply sort_by_In; assumption|exact Hacc].
+Qed.
+
+(* the keys really are the sizes of the files, and the files are those that exist *)
+Lemma sizes_keys fs l : map snd (fst (sizes fs l)) = l /\
+  Forall (fun kf => fst kf = entry_size (fs_stat fs (fst (snd kf)))) (fst (sizes fs l)).
+Proof.
+  induction l as [|f r [IH1 IH2]]; [split; [reflexivity|constructor]|].
+  cbn [sizes]. unfold bind, stat, ret. destruct (sizes fs r) as [ks lg]. cbn [fst snd map] in *.
+  split; [f_equal; assumption|constructor; [reflexivity|assumption]].
+Qed.
+
+(* a 200 response of the view carries the content of the chosen file and its label *)
+Lemma file_response_200 fs p enc vary body enc' vary' log :
+  file_response fs p enc vary = (R200 body enc' vary', log) ->
+  enc' = enc /\ exists sz, fs_stat fs p = Some (EFile sz body).
+Proof.
+  unfold file_response, bind, stat, ret. destruct (fs_stat fs p) as [[sz b|sz]|] eqn:E.
+  - intros H. injection H as <- <- _ _. split; [reflexivity|]. exists sz. reflexivity.
+  - intros H. discriminate.
+  - intros H. discriminate.
+Qed.
+
+Lemma grn_not_200 c rq pi fs t body enc vary log :
+  get_resource_name c rq pi fs t <> (RNResp (R200 body enc vary), log).
+Proof.
+  unfold get_resource_name. intros H.
+  assert (Hd : forall idx l, (dir_or_redirect c rq pi idx, l) <> (RNResp (R200 body enc vary), log)).
+  { intros idx l E. unfold dir_or_redirect in E. destruct (path_url c pi); [|discriminate].
+    destruct (endswith url_dir_suffix t0); discriminate. }
+  destruct (secure_path t) as [path|].
+  - destruct (c_pkg c); unfold bind, stat, ret in H.
+    + destruct (is_dir _); [eapply Hd; exact H|discriminate].
+    + destruct (is_dir _); [eapply Hd; exact H|discriminate].
+  - unfold ret, with_url in H. destruct (path_url c pi); discriminate.
+Qed.
+
+(* a 200 answer of a fresh view instance: the body is the content of a file
+   that exists, the label is that file's encoding, the client accepts it, and
+   no acceptable existing candidate (identity or configured variant) is smaller *)
+Theorem variant_acceptable c rq pi fs t body enc vary fm' log :
+  serve c rq pi fs [] t = ((R200 body enc vary, fm'), log) ->
+  exists name p,
+    let keyed := fst (sizes fs (fst (probe c fs (candidates c name)))) in
+    spec_acceptable rq enc = true /\
+    (exists sz, fs_stat fs p = Some (EFile sz body)) /\
+    exists k, In (k, (p, enc)) keyed /\ k = entry_size (fs_stat fs p) /\
+      forall k' f', In (k', f') keyed -> spec_acceptable rq (snd f') = true -> k <= k'.
+Proof.
+  unfold serve, bind. destruct (get_resource_name c rq pi fs t) as [[r0|name] l1] eqn:E1.
+  { unfold ret. intros H. injection H as -> _ _. exfalso. eapply grn_not_200. exact E1. }
+  unfold possible_files. cbn [fm_get]. unfold compute_files, bind, ret.
+  destruct (probe c fs (candidates c name)) as [found l2] eqn:E2.
+  destruct (sizes fs found) as [keyed l3] eqn:E3. cbn [fst snd].
+  destruct (best_match rq (map snd (sort_by keyed))) as [[p e]|] eqn:E4.
+  2:{ unfold with_url. intros H. injection H as H _ _. destruct (path_url c pi); discriminate. }
+  destruct (file_response fs p e _) as [r1 l4] eqn:E5. intros H. injection H as -> _ _.
+  apply file_response_200 in E5. destruct E5 as [-> Hbody].
+  destruct (variant_choice rq keyed p e E4) as (Hacc & k & Hin & Hmin).
+  exists name, p. cbn zeta. rewrite E2. cbn [fst]. rewrite E3. cbn [fst].
+  split; [exact Hacc|]. split; [exact Hbody|].
+  exists k. split; [exact Hin|]. split; [|exact Hmin].
+  pose proof (sizes_keys fs found) as [_ Hk]. rewrite E3 in Hk. cbn [fst] in Hk.
+  rewrite Forall_forall in Hk. apply (Hk (k, (p, e)) Hin).
+Qed.
+
+(* ------------------------------------------------------------ regenerated facts *)
+Lemma facts_ok :
+  view_decodes_again = false /\ route_remainder_dotall = true /\ route_anchor_abs = true /\ static_use_subpath = true /\ static_route_star = traverser_subpath_key.
+Proof. repeat split; reflexivity. Qed.
+
+Lemma spi_f_is_spi p : split_path_info_f p = split_path_info p.
+Proof. reflexivity. Qed.
+
+(* ------------------------------------------------------------ examples: non-vacuity and boundary *)
+Lemma notin_b x s : memN x s = false -> ~ In x s.
+Proof. intros H Hin. apply memN_In in Hin. congruence. Qed.
+
+(* root "/r" holding f (3 bytes) and f.g (1 byte, encoding "g"); "/s" lies outside *)
+Definition ex_cfg (mount : N) (docroot : text) : config :=
+  mkConfig mount [115] false docroot [] [105] [[103]] [([46; 103], [103])] [104] [47] false.
+Definition ex_fs : fsys :=
+  [ ([[114]], EDir 0); ([[114]; [102]], EFile 3 [1; 2; 3]); ([[114]; [102; 46; 103]], EFile 1 [9]);
+    ([[115]], EFile 2 [7; 7]) ].
+
+Lemma ex_wf mount docroot :
+  mount <> 0 -> startswith [slash] docroot = true -> memN 0 docroot = false -> wf_fs (ex_cfg mount docroot).
+Proof.
+  intros Hm Hs Hz. unfold wf_fs. cbn [c_pkg c_docroot c_encmap ex_cfg].
+  assert (Hi : eff_index (ex_cfg mount docroot) = [105]).
+  { unfold eff_index. cbn [c_mount ex_cfg c_index]. destruct mount; [congruence|reflexivity]. }
+  rewrite Hi. repeat split; try assumption; try discriminate.
+  - apply notin_b. assumption.
+  - apply notin_b. reflexivity.
+  - apply notin_b. reflexivity.
+  - constructor; [|constructor]. cbn [fst]. split; apply notin_b; reflexivity.
+Qed.
+
+(* "/../s" through the catch-all route: '..' is dropped, "/r/s" (isdir, exists) and "/r/s.g" are probed,
+   nothing outside the root is touched *)
+Example containment_nonvacuous :
+  let c := ex_cfg 1 [47; 114] in
+  wf_fs c /\ root_is_dir c ex_fs /\
+  run_model c ex_fs [mkReq [47; 46; 46; 47; 115] [] [] false []] =
+    [(R404 2, [(0, [47; 114; 47; 115]); (0, [47; 114; 47; 115]); (0, [47; 114; 47; 115; 46; 103])])].
+Proof.
+  split; [apply ex_wf; [discriminate|reflexivity|reflexivity]|]. split; vm_compute; reflexivity.
+Qed.
+
+(* "/f" with Accept-Encoding accepting "g": the smaller variant f.g is served, labelled "g", Vary set *)
+Example variant_nonvacuous :
+  let c := ex_cfg 1 [47; 114] in
+  exists log, run_model c ex_fs [mkReq [47; 102] [] [] true [[103]]] = [(R200 [9] (Some [103]) true, log)]
+              /\ contained c log = true.
+Proof. eexists. split; vm_compute; reflexivity. Qed.
+
+(* boundary: when the configured root is not a directory, "<root>.g" next to it is probed and served *)
+Example containment_needs_root_dir :
+  let c := ex_cfg 3 [47; 109] in
+  let fs := [([[109; 46; 103]], EFile 1 [9])] in
+  wf_fs c /\ ~ root_is_dir c fs /\
+  exists log, run_model c fs [mkReq [47] [] [] true [[103]]] = [(R200 [9] (Some [103]) false, log)]
+              /\ contained c log = false.
+Proof.
+  split; [apply ex_wf; [discriminate|reflexivity|reflexivity]|]. split.
+  - unfold root_is_dir. vm_compute. discriminate.
+  - eexists. split; vm_compute; reflexivity.
+Qed.
+
+(* the belt-and-braces sets matter once the tuple does not come from split_path_info *)
+Example secure_path_rejects :
+  secure_path [[46; 46]; [115]] = None /\ secure_path [[97; 47; 98]] = None /\ secure_path [[97; 0]] = None /\
+  secure_path [[97]; [98]] = Some [97; 47; 98].
+Proof. repeat split; reflexivity. Qed.
